@@ -263,6 +263,21 @@ def declare(rng, m):
             t = list(t)
             rng.shuffle(t)
             E0.append(t)
+    if E0 and rng.random() < 0.6:
+        # every spelling: the same edge again, in the other direction, and invalid pairs mixed in (dropped by prepare)
+        nv = len(m["V"])
+        for _ in range(rng.randint(1, 4)):
+            k = rng.random()
+            e = list(rng.choice(E0))
+            if k < 0.4:
+                ins = [e[1], e[0]]
+            elif k < 0.7:
+                ins = list(e)
+            elif k < 0.85:
+                ins = [e[0], e[0]]
+            else:
+                ins = [e[0], nv + rng.randint(0, 3)]
+            E0.insert(rng.randrange(len(E0) + 1), ins)
     return F0, E0
 
 
